@@ -65,6 +65,9 @@ theorem bindLabel_countExact (s : State) (l sec : Nat) (off : BitVec 64) (h : Co
       cases le with
       | bound _ _ => exact h
       | unbound fx =>
+        dsimp only
+        split
+        · exact h
         have h1 := pendingOnLabels_set s.labels l (.unbound fx) (.bound sec off) hle
         have h2 := bindLoop_total l sec off fx { secs := s.secs, relocs := s.relocs, kept := [], resolved := 0, err := .ok }
         unfold CountExact pending at *
@@ -244,6 +247,9 @@ theorem bindLabel_fixupsWF (s : State) (l sec : Nat) (off : BitVec 64) (h : Fixu
       cases le with
       | bound _ _ => exact h
       | unbound fx =>
+        dsimp only
+        split
+        · exact h
         intro g hg
         simp only [List.mem_append] at hg
         have hlt : l < s.labels.length := by
